@@ -26,6 +26,17 @@ CHECKS = {
             "DESIGN.md 4/C20"),
 }
 
+CHECKS["C02"] = ("kv", "exploration",
+    "metamorphic multi-history property testing (rapid) against an independent reference root hash",
+    "For generated final contents, 2-4 generated operation histories (different order, batching into commits, reopen points, cache capacity, "
+    "backend, write-log option) plus write-log replay, CommitKnown and NoPersist variants must all produce the root computed by an independent "
+    "from-scratch reference hash of the contents, after every intermediate commit too; changing one key/value bit/length must change both. One "
+    "defect found this way was repaired (value-size accounting, regression case kept); two node-cache defects at tiny capacities are recorded as "
+    "known findings with deterministic probes and excluded from the generators by construction.",
+    "Keys <= 8191 bytes, non-nil values. Node capacities below the walked path and small value capacities combined with prefix keys are only "
+    "generated when the corresponding known finding is not listed as known. Checkpoint restore as a history variant is covered under C12.",
+    "DESIGN.md 4/C02")
+
 NOT_APPLICABLE = {
 }
 
